@@ -222,6 +222,7 @@ void ChannelMap::build(Plan const& p)
     // jacobian when asked for densities (the documented alternative)
     early = (mix2(p.mseed, 997) % 4 == 0);
     sparse = (mix2(p.mseed, 998) % 3 == 0);
+    all = !sparse && (mix2(p.mseed, 1001) % 3 == 0);
     coord_ret = (mix2(p.mseed, 999) % 2 == 0) ? 0 : static_cast<int>(1 + mix2(p.mseed, 1000) % 3);
     for (std::uint64_t c = 1; restricted && c < chan; ++c)
     {
